@@ -86,16 +86,19 @@ type Run struct {
 	lowPrio   int
 
 	// outcome
-	Stuck        bool // horizon reached with the root task still not finished
-	StepLimit    bool
-	violClass    string
-	violMsg      string
-	nontriv      bool
-	faults       map[string]int
-	probes       map[string]int
-	schedPts     int // scheduling decisions with >= 2 candidates
-	adopted      int
-	RandMode     int // 0 seeded, 1 min, 2 max
+	Stuck     bool // horizon reached with the root task still not finished
+	StepLimit bool
+	violClass string
+	violMsg   string
+	nontriv   bool
+	faults    map[string]int
+	probes    map[string]int
+	schedPts  int // scheduling decisions with >= 2 candidates
+	adopted   int
+	RandMode  int // 0 seeded, 1 min, 2 max
+	// StallOdds > 0: at each scheduling point a task is stalled with probability 1/StallOdds for 1..40 StallUnit of virtual time
+	StallOdds    int
+	StallUnit    time.Duration
 	randCtr      int64
 	bubbleMsg    string
 	endTime      time.Duration
@@ -217,6 +220,15 @@ func Yield(site string) {
 	r, t := Current()
 	if t == nil {
 		return
+	}
+	if r.StallOdds > 0 && r.Fault.Intn(r.StallOdds) == r.StallOdds-1 {
+		// fault: the task is stalled here (pre-empted, paged out, GC pause) for a drawn virtual duration
+		d := time.Duration(1+r.Fault.Intn(40)) * r.StallUnit
+		r.FaultFired("task-stalled")
+		r.mu.Lock()
+		t.site = site + "(stalled)"
+		r.mu.Unlock()
+		time.Sleep(d)
 	}
 	r.park(t, site)
 }
